@@ -2,6 +2,7 @@ import Verif.Props.C07
 import Verif.Props.C06
 import Verif.Props.C05
 import Verif.Props.C18
+import Verif.Proofs.C09Css
 /-!
 # C09 — accepted input yields syntactically valid output that is accepted again
 
@@ -37,5 +38,47 @@ theorem svg_path_output_parses : type_of% @Verif.Props.C05.shorten_output_parses
 
 /-- **SVG path printer**: any well-formed group list lexes back to exactly its tokens -/
 theorem svg_path_lex_roundtrip : type_of% @Verif.Props.C05.path_lex_roundtrip := @Verif.Props.C05.path_lex_roundtrip
+
+/-! ## Css -/
+
+/-- **CSS, declaration writer**: for all admissible values (`valsOk`: every lexeme a closed token of its type for the
+    independent tokeniser, function arguments pairwise safe), every `!important` flag and every context starting
+    with a stop code point, the independent CSS Syntax 3 tokeniser reads the bytes `writeDeclaration` writes as
+    exactly the tokens it was given: nothing merges, nothing splits (guard `sepOk` = known findings K-C09-CSS-1/2) -/
+theorem css_writer_retokenises : type_of% @Verif.Proofs.C09Css.css_writer_retokenises :=
+  @Verif.Proofs.C09Css.css_writer_retokenises
+
+/-- **CSS**: without the guard on neighbours inside functions the statement is false (`f(` `red` `10%` `)` is written
+    `f(red10%)`) -/
+theorem css_writer_retokenises_counterexample : type_of% @Verif.Proofs.C09Css.css_writer_retokenises_counterexample :=
+  @Verif.Proofs.C09Css.css_writer_retokenises_counterexample
+
+/-- **CSS, declaration minifier of the model**: whenever `minifyDeclaration` is defined, not on the raw path and chose
+    admissible values, the bytes it writes read back as those values -/
+theorem css_declaration_retokenises : type_of% @Verif.Proofs.C09Css.css_declaration_retokenises :=
+  @Verif.Proofs.C09Css.css_declaration_retokenises
+
+/-- **CSS, second pass**: every token the independent tokeniser reads in a written declaration is again a closed
+    token of its type, none a bad-string or bad-url: the lexer contract holds again for the second pass -/
+theorem css_second_pass_tokens : type_of% @Verif.Proofs.C09Css.css_second_pass_tokens :=
+  @Verif.Proofs.C09Css.css_second_pass_tokens
+
+/-- **CSS, block structure**: a written value followed by `;` or `}` is read as bracket-balanced tokens without
+    bad-string/bad-url, then exactly the terminator: it neither swallows its terminator nor opens or closes a block -/
+theorem css_declaration_closed : type_of% @Verif.Proofs.C09Css.css_declaration_closed :=
+  @Verif.Proofs.C09Css.css_declaration_closed
+
+/-- **CSS, urls**: whatever passes the unquoting test of `minifyTokens` is, between `url(` and `)`, one closed url token
+    with exactly that value -/
+theorem css_url_closed : type_of% @Verif.Proofs.C09Css.css_url_closed := @Verif.Proofs.C09Css.css_url_closed
+
+/-- **CSS, strings**: without `\`+newline in it a closed string is left alone by `removeMarkupNewlines` -/
+theorem css_string_closed_partial : type_of% @Verif.Proofs.C09Css.css_string_closed_partial :=
+  @Verif.Proofs.C09Css.css_string_closed_partial
+
+/-- **CSS, strings**: in general `removeMarkupNewlines` changes the value: `"\31\<LF>2"` (`12`) becomes `"\312"`
+    (K-C09-CSS-11) -/
+theorem css_string_closed_counterexample : type_of% @Verif.Proofs.C09Css.css_string_closed_counterexample :=
+  @Verif.Proofs.C09Css.css_string_closed_counterexample
 
 end Verif.Props.C09
